@@ -82,7 +82,8 @@ func runC01(c *Ctx) {
 	}
 	c.rule("R11", "every beat of the heartbeat (re)creates the heartbeat file: a creating write lies in the loop, so that a creation that failed once, or a file that vanished, is repaired one period later", 1)
 	c.rule("R12", "the instant written at a beat is read from the clock at that beat (time.Now() evaluated in the loop), not carried over or computed from the previous beat", 1)
-	c.heartBeatEveryBeat("R11", "R12")
+	c.rule("R14", "the instant given to the heartbeat file is read after the write of that beat: a slow write does not back-date the heartbeat it has just made", 1)
+	c.heartBeatEveryBeat("R11", "R12", "R14")
 	c.rule("R13", "the heartbeat goroutine returns only where its context gate answered an error: a failed write does not end the heartbeat of a holder that is alive (the exit obligation of C17/S1)", 1)
 	c.heartBeatStopsOnlyWithItsContext("R13")
 
@@ -505,7 +506,7 @@ func (c *Ctx) staleVerdictErrorsTravel(rule string) {
 //   - clock: the instant written at a beat is read from the clock at that beat — every time operand of Chtimes derives from
 //     a time.Now() evaluated inside the loop, not from a value carried from one iteration to the next (a computed schedule
 //     drifts from the observers' clocks by every delay of every beat and never catches up).
-func (c *Ctx) heartBeatEveryBeat(ruleCreate, ruleClock string) {
+func (c *Ctx) heartBeatEveryBeat(ruleCreate, ruleClock string, ruleAfter ...string) {
 	hb := c.fnOpt(fsPkgRel, "heartBeat")
 	if hb == nil {
 		c.info(ruleCreate, "filesystem.heartBeat/absent", "-", "no heartBeat function (the heartbeat is written elsewhere)")
@@ -547,6 +548,40 @@ func (c *Ctx) heartBeatEveryBeat(ruleCreate, ruleClock string) {
 				bad = c.ipos(st) + " (operand from " + c.pos(l.Pos()) + ")"
 			}
 		}
+	}
+	if len(ruleAfter) > 0 {
+		// the instant handed to Chtimes is read once the beat's write is over: read before it, a slow write back-dates the heart
+		// beat it has just made
+		late := ""
+		var writes []*ssa.Call
+		allInstrs(hb, func(in ssa.Instruction) {
+			if cl, ok := in.(*ssa.Call); ok && cl.Call.IsInvoke() && inLoop(cl) {
+				switch cl.Call.Method.Name() {
+				case "WriteFile", "WriteFileWithContext", "WriteToFile", "CreateFile", "OpenFile", "Touch":
+					writes = append(writes, cl)
+				}
+			}
+		})
+		for _, st := range stamps {
+			for _, a := range st.Call.Args {
+				if !strings.HasSuffix(a.Type().String(), "time.Time") {
+					continue
+				}
+				for _, l := range sources(a, deriveOpts{}) {
+					clock, ok := l.(*ssa.Call)
+					if !ok || calleeFull(&clock.Call) != "time.Now" {
+						continue
+					}
+					for _, w := range writes {
+						if !dominates(w, clock) {
+							late = c.ipos(clock) + " (write at " + c.ipos(w) + ")"
+						}
+					}
+				}
+			}
+		}
+		c.check(len(stamps) == 0 || len(writes) == 0 || late == "", ruleAfter[0], fname(hb)+"/stamped-when-written", c.pos(hb.Pos()), "the clock read for the file's times follows the write of that beat",
+			"the time given to the heart beat file is read at "+late+", before the beat's write: a write that takes 80 ms back-dates the heart beat it has just made by 80 ms — the lock of a live holder is reported stale 20 ms after a heart beat was written, and can be taken over")
 	}
 	c.check(stamping == 0 || bad == "", ruleClock, fname(hb)+"/every-beat-reads-the-clock", c.pos(hb.Pos()), "the times written at a beat come from time.Now() evaluated in the loop",
 		"the time written at "+bad+" is not read from the clock at that beat (it is carried from one iteration to the next, or computed): observers compare it with their own clock, every delay of a beat accumulates, and after one stall of the disk the live lock is reported stale for ever")
